@@ -441,6 +441,22 @@ func checkCase(t failer, c pcase) (labels []string) {
 		if f.SCION.SrcIA != req.SCION.SrcIA || f.SCION.DstIA != req.SCION.DstIA || !bytes.Equal(f.SCION.RawSrcAddr, req.SCION.RawSrcAddr) || !bytes.Equal(f.SCION.RawDstAddr, req.SCION.RawDstAddr) {
 			t.Fatalf("%s: forwarded packet's SCION addresses changed", describe(c))
 		}
+		// the packet authenticator travels with the packet: the application behind the forwarder verifies it
+		if authOpt != nil {
+			var got []byte
+			if f.HasE2E {
+				if o, err := f.E2E.FindOption(slayers.OptTypeAuthenticator); err == nil {
+					got = o.OptData
+				}
+			}
+			if !bytes.Equal(got, authOpt.OptData) {
+				t.Fatalf("%s: the forwarded packet's authenticator option is %x, the packet was sent with %x", describe(c), got, authOpt.OptData)
+			}
+			if _, _, _, ok, _ := f.VerifySPAO(zeroKey); !ok && c.SPAO == "valid" {
+				t.Fatalf("%s: the authenticator of the forwarded packet does not verify any more", describe(c))
+			}
+			labels = append(labels, "forwarded-with-authenticator")
+		}
 		labels = append(labels, "forwarded")
 	}
 	return labels
